@@ -127,61 +127,136 @@ func (e *Engine) mapDelete(st *State, m MapV, k Value) {
 // ----- channels: object cells[0] = closed flag, cells[1:] = queue (unbounded FIFO) -----
 // goroutines are pending tasks run to completion when somebody has to wait (schedules are not explored)
 
-func (e *Engine) chanRecv(p *Path, c ChanV, elem types.Type, act *Activation) (Value, *Term) {
-	for tries := 0; ; tries++ {
-		o := e.obj(p.st, c.obj)
-		if len(o.cells) > 1 {
-			w := e.wobj(p.st, c.obj)
-			v := w.cells[1]
-			w.cells = append([]Value{w.cells[0]}, w.cells[2:]...)
-			return v, e.True
-		}
-		cl := o.cells[0].(*Term)
-		if cl.IsTrue() {
-			return e.zero(p.st, elem), e.False
-		}
-		if !cl.IsFalse() {
-			unsup("receive on channel with symbolic closed flag")
-		}
-		// would block: run one pending task to completion
-		if len(p.st.tasks) == 0 || tries > 1000 {
-			unsup("receive would block forever (no pending task can deliver)")
-		}
-		if !e.runOneTask(p, act.depth) {
-			return nil, e.False
+func (e *Engine) chanRecv(p *Path, c ChanV, elem types.Type, depth int, commaOk bool) []Result {
+	var out []Result
+	work := []*State{p.st}
+	guard := 0
+	for len(work) > 0 {
+		st := work[len(work)-1]
+		work = work[:len(work)-1]
+		for {
+			guard++
+			if guard > 20000 {
+				unsup("receive: pending tasks do not make progress")
+			}
+			o := e.obj(st, c.obj)
+			if len(o.cells) > 1 {
+				w := e.wobj(st, c.obj)
+				v := w.cells[1]
+				w.cells = append([]Value{w.cells[0]}, w.cells[2:]...)
+				if commaOk {
+					out = append(out, Result{st, TupleV{v, e.True}})
+				} else {
+					out = append(out, Result{st, v})
+				}
+				break
+			}
+			cl := o.cells[0].(*Term)
+			if cl.IsTrue() {
+				z := e.zero(st, elem)
+				if commaOk {
+					out = append(out, Result{st, TupleV{z, e.False}})
+				} else {
+					out = append(out, Result{st, z})
+				}
+				break
+			}
+			if !cl.IsFalse() {
+				unsup("receive on channel with symbolic closed flag")
+			}
+			// would block: run one pending task to completion
+			if len(st.tasks) == 0 {
+				panic(blockedErr{"receive would block forever (no pending goroutine can deliver)"})
+			}
+			sts := e.runOneTask(st, depth)
+			if len(sts) == 0 {
+				break
+			}
+			work = append(work, sts[1:]...)
+			st = sts[0]
 		}
 	}
+	return out
 }
 
-// runOneTask runs the oldest pending task to completion on p's state. If it ends in several states they
-// must be mergeable (they are: same activation rules); false = every path of the task ended abnormally.
-func (e *Engine) runOneTask(p *Path, depth int) bool {
-	t := p.st.tasks[0]
-	p.st.tasks = append([]Task(nil), p.st.tasks[1:]...)
-	rs := e.callFn(p, t.fn, t.args, t.env, depth, nil)
-	if len(rs) == 0 {
-		p.st.G = e.False
-		return false
-	}
-	if len(rs) > 1 {
-		sts := make([]*State, len(rs))
-		for i, r := range rs {
-			sts[i] = r.st
+type blockedErr struct{ why string }
+
+// runOneTask runs one pending task of st to completion: the oldest one that can complete.  A task that would
+// block forever (it waits for something only a goroutine further up the call stack can provide) is rolled
+// back - state and recorded outcomes - and stays pending; the next one is tried.  If none can complete the
+// whole attempt is reported as blocked to the enclosing task.  The task may end in several states (merged
+// when compatible); none = every path of the task ended abnormally.
+func (e *Engine) runOneTask(st *State, depth int) []*State {
+	tasks := st.tasks
+	for i, t := range tasks {
+		rest := make([]Task, 0, len(tasks)-1)
+		rest = append(rest, tasks[:i]...)
+		rest = append(rest, tasks[i+1:]...)
+		attempt := e.fork(st)
+		attempt.tasks = rest
+		nA, nP, nF, nR, nU, nO := len(e.asserts), len(e.panics), len(e.fatals), len(e.reaches), len(e.unwinds), len(e.observes)
+		nCatch := len(e.catch)
+		var caught []int
+		for _, c := range e.catch {
+			caught = append(caught, len(c.caught))
 		}
-		p.st = e.mergeStates(sts)
-		return true
+		var rs []Result
+		blocked := false
+		func() {
+			defer func() {
+				if r := recover(); r != nil {
+					if _, ok := r.(blockedErr); ok {
+						blocked = true
+						return
+					}
+					panic(r)
+				}
+			}()
+			rs = e.callFn(&Path{st: attempt}, t.fn, t.args, t.env, depth, nil)
+		}()
+		if blocked {
+			// roll back everything the attempt recorded
+			e.asserts, e.panics, e.fatals, e.reaches, e.unwinds, e.observes = e.asserts[:nA], e.panics[:nP], e.fatals[:nF], e.reaches[:nR], e.unwinds[:nU], e.observes[:nO]
+			e.catch = e.catch[:nCatch]
+			for k, c := range e.catch {
+				c.caught = c.caught[:caught[k]]
+			}
+			continue
+		}
+		rs = e.mergeResults(rs)
+		out := make([]*State, len(rs))
+		for k, r := range rs {
+			out[k] = r.st
+		}
+		return out
 	}
-	p.st = rs[0].st
-	return true
+	panic(blockedErr{"no pending goroutine can make progress"})
 }
 
-func (e *Engine) runPending(p *Path, depth int) {
-	for n := 0; len(p.st.tasks) > 0; n++ {
-		if n > 10000 {
-			unsup("pending tasks do not terminate")
+func (e *Engine) runPending(p *Path, depth int) []Result {
+	var out []Result
+	work := []*State{p.st}
+	guard := 0
+	for len(work) > 0 {
+		st := work[len(work)-1]
+		work = work[:len(work)-1]
+		alive := true
+		for len(st.tasks) > 0 {
+			guard++
+			if guard > 20000 {
+				unsup("pending tasks do not terminate")
+			}
+			sts := e.runOneTask(st, depth)
+			if len(sts) == 0 {
+				alive = false
+				break
+			}
+			work = append(work, sts[1:]...)
+			st = sts[0]
 		}
-		if !e.runOneTask(p, depth) {
-			return
+		if alive {
+			out = append(out, Result{st, nil})
 		}
 	}
+	return out
 }
